@@ -1,0 +1,40 @@
+//go:build verif
+// +build verif
+
+package aspect_elimination
+
+// Contracts for gocv (comment-only; compiled out unless the tag "verif" is set, and empty then).
+
+// This listener's definitions of the abstract predicates of model.BiasListener (the threshold part of the parameters is
+// handled by the nested satisfaction-levels listener, which is used through its interface and not specified here)
+//@ pred aeValid(l model.BiasListener, p model.MethodParameters) = typeis(p, AspectEliminationHeuristicParams)
+//@ pred aeCovers(l model.BiasListener, p model.MethodParameters, id string) = typeis(p, AspectEliminationHeuristicParams) && id in p.(AspectEliminationHeuristicParams).Weights
+//@ pred aeAcceptsAny(l model.BiasListener, x model.MethodParameters) = typeis(x, aspectEliminationAddedCriterion)
+//@ pred aeAccepts(l model.BiasListener, x model.MethodParameters, id string) = typeis(x, aspectEliminationAddedCriterion) && id in x.(aspectEliminationAddedCriterion).Weights
+//@ spec aeImportance(l model.BiasListener, p *model.DecisionMakingParams, id string) real = p.MethodParameters.(AspectEliminationHeuristicParams).Weights[id]
+
+//@ func (*AspectEliminationHeuristicParams).with
+//@   property C07
+//@   nopanic
+//@   ensures [replaced] result.Params == params && result.Weights == *weights && result.Function == a.Function && result.RandomSeed == a.RandomSeed
+//@             && result.RandomAlternativesOrdering == a.RandomAlternativesOrdering
+
+//@ func (*AspectEliminationBiasListener).OnCriteriaRemoved
+//@   property C07 C15
+//@   refines model.BiasListener.OnCriteriaRemoved with validParams=aeValid, coversId=aeCovers
+//@   ensures [weights_restricted] forall k int :: 0 <= k && k < len(*leftCriteria) ==>
+//@             result.(AspectEliminationHeuristicParams).Weights[(*leftCriteria)[k].Id] == params.(AspectEliminationHeuristicParams).Weights[(*leftCriteria)[k].Id]
+
+//@ func (*AspectEliminationBiasListener).OnCriterionAdded
+//@   property C07 C18
+//@   fnparam generator ensures 0.0 <= result && result < 1.0
+//@   refines model.BiasListener.OnCriterionAdded with validParams=aeValid, coversId=aeCovers, accepts=aeAccepts, acceptsAny=aeAcceptsAny
+//@   ensures [weight_is_fraction_of_reference] model.fractionOf(result.(aspectEliminationAddedCriterion).Weights[criterion.Id], params.(AspectEliminationHeuristicParams).Weights[referenceCriterion.Id])
+
+//@ func (*AspectEliminationBiasListener).Merge
+//@   property C07 C18
+//@   refines model.BiasListener.Merge with validParams=aeValid, coversId=aeCovers, accepts=aeAccepts, acceptsAny=aeAcceptsAny
+
+//@ func (*AspectEliminationBiasListener).RankCriteriaAscending
+//@   property C15 C07
+//@   refines model.BiasListener.RankCriteriaAscending with validParams=aeValid, coversId=aeCovers, imp=aeImportance
